@@ -64,11 +64,17 @@ def mk_candles_symtime(ctx, n, lo=0, hi=4 * 10 ** 9, span=None, prefix=""):
     return out, ts
 
 
+class Stamp(datetime):
+    """the concrete twin of a symbolic timestamp: like SymDT (and like pandas.Timestamp, pendulum, ... in user code) an
+    instance of a datetime SUBCLASS, so that the replay takes the same branches as the symbolic run wherever the library
+    distinguishes plain datetimes from subclasses"""
+
+
 def to_time(ctx, t):
     if ctx.symbolic:
         from symx.symtime import SymDT
         return SymDT(t.t)
-    return datetime(1970, 1, 1) + timedelta(seconds=int(t))
+    return Stamp(1970, 1, 1) + timedelta(seconds=int(t))
 
 
 def clone(candles):
